@@ -461,6 +461,12 @@ class Process:
             # APIs which don't use _raise_if_pid_reused().
             msg = "process no longer exists and its PID has been reused"
             raise NoSuchProcess(self.pid, self._name, msg=msg)
+        if self._gone:
+            # is_running() never looks at a process again once it has
+            # seen it gone, so it cannot notice that the PID has been
+            # taken over by another process in the meantime. Refuse
+            # here, or the caller would signal / alter the new owner.
+            raise NoSuchProcess(self.pid, self._name)
 
     @property
     def pid(self):
